@@ -228,7 +228,9 @@ def explore(ctx):
                                 'whitening': wh, 'features': feat, 'tfeatures': 'absent', 'raw': False,
                                 'sample_rate': sr, 'nsw': 5, 'fill': ctx.seed + (i % 3),
                                 'nonpositive_spikes': [3, 7] if i % 2 else [0],
-                                'template_dtype': 'float64' if (i // 2) % 2 else 'float32'}
+                                'template_dtype': 'float64' if (i // 2) % 2 else 'float32',
+                                # a channel that is not the largest carries a constant offset
+                                'dc_offset': [[0, 1, 40.0], [2, 0, 40.0], [3, 4, -40.0]] if (i // 4) % 2 else None}
                         cases.append({'spec': spec, 'factors': [1, 2.5], 'unused': unused, 'how': how})
     # get_depths works in batches of 50 000 spikes: two datasets just beyond one and two batches
     for ns_big in ((50007, 100003) if ctx.thorough else (50007,)):
